@@ -29,41 +29,52 @@ def fingerprint(ds):
 def table_names(ds): return list(ds._data.tables.keys())
 
 def run_save_with_crash(ds_new, path, k, torn, del_order):
-    """Run DataContainer.save with the k-th step interrupted. Steps: rm each entry (in del_order), rmdir, mkdir,
-    schema.json, one per table, summary.md. Returns nothing; the directory is left as the crash left it."""
+    """Run DataContainer.save with its k-th file-system step interrupted.  A step is any removal of a directory entry under `path`
+    (the entries of a pre-existing directory go in `del_order` when the code removes the whole tree), the rmdir, the mkdir, and every
+    file written under `path` (schema, one per table, summary).  The injection points are the file-system primitives themselves, so a
+    save that is re-organised still gets interrupted at each of its steps.  The directory is left as the crash left it."""
+    import shutil as _sh
     step = {"n": 0}
     def tick(write_path=None, partial=None):
         if step["n"] == k:
             if torn and write_path is not None:
-                with open(write_path, "wb") as f: f.write(partial if partial is not None else b"PAR1 trunc")
+                with real_open(write_path, "wb") as f: f.write(partial if partial is not None else b"PAR1 trunc")
             raise Crash()
         step["n"] += 1
-    real_open = open
-    def fake_rmtree(p):
-        for name in del_order:
-            tick(); os.remove(Path(p) / name)
-        tick(); os.rmdir(p)
+    real_open = open; real_remove, real_unlink, real_rmdir = os.remove, os.unlink, os.rmdir
+    real_rmtree = _sh.rmtree; real_mkdir = Path.mkdir; real_save_stats = summ.save_stats; real_pq_write = pq.write_table
+    under = lambda p_: str(p_).startswith(str(path))
+    def fake_rmtree(p_, *a, **kw):
+        if not under(p_): return real_rmtree(p_, *a, **kw)
+        present = set(os.listdir(p_))
+        for name in [n for n in del_order if n in present] + sorted(present - set(del_order)):
+            tick(); real_remove(Path(p_) / name)
+        tick(); real_rmdir(p_)
+    def fake_remove(p_, *a, **kw):
+        if under(p_): tick()
+        return real_remove(p_, *a, **kw)
+    def fake_rmdir(p_, *a, **kw):
+        if under(p_): tick()
+        return real_rmdir(p_, *a, **kw)
     def fake_write_table(table, where, **kw):
-        tick(write_path=where)
-        pq.write_table(table, where, **kw)
+        if under(where): tick(write_path=where)
+        return real_pq_write(table, where, **kw)
     class FakeOpen:
         def __call__(self, file, mode="r", *a, **kw):
-            if str(file).endswith("schema.json") and "w" in mode:
-                tick(write_path=file, partial=b'{"name": nul')
+            if under(file) and any(c in mode for c in "wax"):
+                tick(write_path=file, partial=b'{"name": nul' if str(file).endswith(".json") else b"# Summ")
             return real_open(file, mode, *a, **kw)
     def fake_save_stats(data, out):
         tick(write_path=out, partial=b"# Summ")
         return real_save_stats(data, out)
-    real_save_stats = summ.save_stats
-    class FakePath(type(Path())):
-        pass
-    saved = (cont.rmtree, cont.write_table, summ.save_stats)
-    # mkdir is also a step: wrap Path.mkdir via a tiny shim on the container module's Path
-    real_mkdir = Path.mkdir
     def fake_mkdir(self, *a, **kw):
         if str(self) == str(path): tick()
         return real_mkdir(self, *a, **kw)
-    cont.rmtree = fake_rmtree; cont.write_table = fake_write_table; summ.save_stats = fake_save_stats
+    saved_cont = {nm: getattr(cont, nm) for nm in ("rmtree", "write_table") if hasattr(cont, nm)}
+    for nm, fk in (("rmtree", fake_rmtree), ("write_table", fake_write_table)):
+        if nm in saved_cont: setattr(cont, nm, fk)
+    _sh.rmtree = fake_rmtree; pq.write_table = fake_write_table; summ.save_stats = fake_save_stats
+    os.remove = fake_remove; os.unlink = fake_remove; os.rmdir = fake_rmdir
     cont.open = FakeOpen(); Path.mkdir = fake_mkdir
     try:
         ds_new._data.save(path)
@@ -71,7 +82,9 @@ def run_save_with_crash(ds_new, path, k, torn, del_order):
     except Crash:
         return "crashed"
     finally:
-        cont.rmtree, cont.write_table, summ.save_stats = saved
+        for nm, v in saved_cont.items(): setattr(cont, nm, v)
+        _sh.rmtree = real_rmtree; pq.write_table = real_pq_write; summ.save_stats = real_save_stats
+        os.remove, os.unlink, os.rmdir = real_remove, real_unlink, real_rmdir
         del cont.open; Path.mkdir = real_mkdir
 
 def load_verdict(path, fp_old, fp_new):
@@ -90,7 +103,8 @@ def canon(il):
     return d
 
 
-WORK = ROOT / ".work"
+from ..core import OUT
+WORK = OUT / ".work"
 
 def gen(rng: random.Random, tier: str):
     n = {"quick": 60, "thorough": 1500}[tier]
@@ -103,16 +117,25 @@ def gen(rng: random.Random, tier: str):
                     yield {"kind": "crash", "fresh": fresh, "k": k, "torn": torn, "order_seed": rng.randrange(10**6), "old_tag": 1, "new_tag": 2 + trial}
     for _ in range(n):
         L = rng.randint(0, 5)
-        yield {"kind": "itemlist", "len": L, "str_ids": rng.random() < 0.3, "fields": rng.choice([[], ["score"], ["score", "rating"], ["rating", "cnt"]]),
-               "ordered": rng.random() < 0.5, "seed": rng.randrange(10**6)}
+        yield {"kind": "itemlist", "len": L, "str_ids": rng.random() < 0.3,
+               "fields": rng.choice([[], ["score"], ["score", "rating"], ["rating", "cnt"], ["score", "discount", "exposure"], ["label", "item_pop"], ["dcg", "freq", "lift"], ["field_x", "e"]]),
+               "ordered": rng.random() < 0.5, "seed": rng.randrange(10**6), "vocab": rng.choice(["none", "none", "known", "with-unknown"])}
     for _ in range(n // 2):
         yield {"kind": "collection", "n": rng.randint(0, 4), "same_fields": rng.random() < 0.6, "seed": rng.randrange(10**6)}
     for _ in range(max(4, n // 10)):
         yield {"kind": "dataset", "seed": rng.randrange(10**6), "extra": rng.random() < 0.5, "how": rng.choice(["native", "pickle"])}
 
-def _mk_il(rnd, L, str_ids, fields, ordered):
+def _mk_il(rnd, L, str_ids, fields, ordered, vocab="none"):
     ids = rnd.sample(range(100, 130), L)
     kw = {}
+    for extra in fields:
+        if extra not in ("score", "rating", "cnt"): kw[extra] = np.array([rnd.randint(0, 9) / 2 for _ in range(L)])
+    if vocab != "none":
+        from lenskit.data import Vocabulary
+        conv = (lambda x: f"i{x}") if str_ids else (lambda x: x)
+        universe = [conv(x) for x in range(100, 130)]
+        if vocab == "with-unknown" and L: universe = [u for u in universe if u != conv(ids[0])]      # the first item is not in the vocabulary
+        kw["vocabulary"] = Vocabulary(universe)
     if "score" in fields: kw["scores"] = np.array([rnd.choice([1.5, -2.0, math.nan, 0.0]) for _ in range(L)], dtype="f4")
     if "rating" in fields: kw["rating"] = np.array([float(rnd.randint(1, 5)) for _ in range(L)])
     if "cnt" in fields: kw["cnt"] = np.array([rnd.randint(0, 9) for _ in range(L)], dtype="i4")
@@ -152,16 +175,21 @@ def run(case: dict, lean: Lean) -> Outcome:
         return Outcome(corr, not failed, tuple(classes), {"impl": real, "model": model, "failed": failed, "delete_order": del_order}, None)
     rnd = random.Random(case["seed"])
     if kind == "itemlist":
-        il = _mk_il(rnd, case["len"], case["str_ids"], case["fields"], case["ordered"]); c = canon(il)
-        for how, f in (("arrow", lambda: ItemList.from_arrow(il.to_arrow())), ("frame", lambda: ItemList.from_df(il.to_df())), ("pickle", lambda: pickle.loads(pickle.dumps(il)))):
+        il = _mk_il(rnd, case["len"], case["str_ids"], case["fields"], case["ordered"], case.get("vocab", "none")); c = canon(il)
+        if case.get("vocab", "none") != "none": classes.append("vocabulary-backed list" + (" with an unknown identifier" if case["vocab"] == "with-unknown" and case["len"] else ""))
+        if any(f not in ("score", "rating", "cnt") for f in case["fields"]): classes.append("custom field names")
+        fresh = lambda: _mk_il(random.Random(case["seed"]), case["len"], case["str_ids"], case["fields"], case["ordered"], case.get("vocab", "none"))
+        for how, f in (("arrow", lambda: ItemList.from_arrow(fresh().to_arrow())), ("frame", lambda: ItemList.from_df(fresh().to_df())), ("pickle", lambda: pickle.loads(pickle.dumps(fresh()))),
+                       ("pickle after use", lambda: pickle.loads(pickle.dumps(il)))):
             try:
                 o = canon(f())
-                if not (o == c if how == "pickle" else _same(c, o)): failed.append(f"{how}: {c} -> {o}")
+                if not (o == c if how.startswith("pickle") else _same(c, o)): failed.append(f"{how}: {c} -> {o}")
             except Exception as e:
                 failed.append(f"{how}: {type(e).__name__}: {str(e)[:60]}")
         if case["len"] == 0: classes.append("empty list")
         if case["str_ids"]: classes.append("string ids")
         if failed and case["len"] == 0 and all(f.startswith(("arrow: TypeError", "frame:")) for f in failed): key = "empty ItemList does not survive the Arrow / frame round trip"
+        elif failed and case.get("vocab") == "with-unknown" and all(f.startswith(("pickle: KeyError", "pickle after use: KeyError", "frame: KeyError")) for f in failed): key = "pickling / framing an item list whose vocabulary does not know one of its identifiers raises KeyError"
     elif kind == "collection":
         fsets = [["score"], ["score", "rating"], ["rating", "cnt"], []]
         f0 = rnd.choice(fsets); ilc = ItemListCollection.empty(UserIDKey)
